@@ -30,4 +30,15 @@ TEXT = {
         "note": "Trusted: Lean kernel; hand transcription of mux.go/group.go; harness. The Lean theorems are for a single mux (no Mount); the mounted arrangements "
                 "are tied by model=spec=impl agreement only. Listener-only patterns (rejected by Serve) and cyclic mounts are outside the specification.",
     },
+    "C10": {
+        "text": "Lean 4 theorems (Props/C10.lean): the remove/add events of collectionDiff (modelled as written: prefix/suffix trimming, LCS table, "
+                "backtracking switch, adds records, final index formula over Int), applied in order with range checks, turn ANY old list into ANY new list - "
+                "for an arbitrary content of the LCS table; equal lists publish nothing; the change event of modelDiff turns any old model into any new one with "
+                "removed keys as delete actions and only differing keys sent; changeHandler's create/delete/diff selection with or without default keeps a client "
+                "coherent with what get serves. Tie: real store.Handler on mockstore inside a real Service; all pairs of collections of length <= 4 (quick) / <= 5 "
+                "(thorough) over 3 values plus random mutation histories over all handler configurations; the published events are fed to the Lean reference "
+                "client, whose cache must equal every later get.",
+        "note": "Trusted: Lean kernel; transcription of storehandler.go; encoding/json; mockstore; element equality = byte equality of canonical JSON (C18 covers Value.Equal). "
+                "A failing Transformer.Transform is not modelled.",
+    },
 }
